@@ -9,6 +9,8 @@ CLAIMED = {
          TRUST + "std::map is not verified (single-witness finite-map abstraction).", "DESIGN.md 6 (C16)"),
  "C08": ("proof", "Rotations are proved against a full rewiring contract with frame (K1); the fixup_insert loop is proved by an induction step and an exit condition on the mechanically outlined real loop body over a symbolic local neighbourhood with ghost black heights (K2, lifted by the pen-and-paper lemma L-tree); whole insert/find sequences are additionally checked bounded (K5: 3 keys quick, 5 keys thorough) and are listed as bounded, not proved.",
          TRUST + "induction lemma L-tree (DESIGN.md 5.3) is not machine-checked; descent loops and the insert/find bodies are covered only by the bounded obligations so far; std::allocator assumed to return fresh storage.", "DESIGN.md 6 (C08)"),
+ "C10": ("proof", "The set operations are proved over the whole 64-bit domain with a symbolic element; name-to-set mapping, the 20 named accessors and decomposition are proved on the lowered real code against the constant tables clang evaluates from the source, with table loops fully unwound and the subset of basic names symbolic (all 2^18 / 2^3 subsets at once); unknown names: normal return is proved unreachable.",
+         TRUST + "std::vector::push_back modelled as append; the Lexicon object's own state is arbitrary (these members read none of it); mutable static state introduced under these functions makes the run undecided and falls back to a native sweep.", "DESIGN.md 6 (C10)"),
 }
 m = {"version": 1,
  "setup_cmd": "python3 -c \"import sys; sys.path.insert(0,'lib'); import ipv; ipv.ensure_cxx2c()\"",
